@@ -28,6 +28,7 @@ type solver struct {
 	// assertion stack (z3's non-incremental tactics decide FP queries far faster)
 	oneshot bool
 	frames  [][]string
+	mirror  bool // keep a textual copy of the assertion stack (solver cross-check)
 }
 
 // SolverError is panicked when the solver process misbehaves; the path is
@@ -87,7 +88,7 @@ func newSolver(kind string, timeoutS int, log io.Writer) *solver {
 		panic(SolverError{"cannot start solver: " + err.Error()})
 	}
 	atomic.AddInt64(&solverSpawned, 1)
-	s := &solver{kind: kind, cmd: cmd, in: bufio.NewWriterSize(in, 1<<16), inc: in, out: bufio.NewReaderSize(outp, 1<<16), log: log, timeoutS: timeoutS}
+	s := &solver{kind: kind, cmd: cmd, in: bufio.NewWriterSize(in, 1<<16), inc: in, out: bufio.NewReaderSize(outp, 1<<16), log: log, timeoutS: timeoutS, frames: [][]string{nil}}
 	if kind == "cvc5" {
 		s.send("(set-logic ALL)")
 	} else {
@@ -124,6 +125,56 @@ func (s *solver) send(cmd string) {
 	if s.log != nil {
 		io.WriteString(s.log, cmd+"\n")
 	}
+	if s.mirror {
+		switch {
+		case strings.HasPrefix(cmd, "(push"):
+			s.frames = append(s.frames, nil)
+		case strings.HasPrefix(cmd, "(pop"):
+			if len(s.frames) > 1 {
+				s.frames = s.frames[:len(s.frames)-1]
+			}
+		case strings.HasPrefix(cmd, "(check-sat") || strings.HasPrefix(cmd, "(get-value") || strings.HasPrefix(cmd, "(set-option"):
+		default:
+			s.frames[len(s.frames)-1] = append(s.frames[len(s.frames)-1], cmd)
+		}
+	}
+}
+
+// script returns the current assertion stack as an SMT-LIB2 script (mirror mode).
+func (s *solver) script() string {
+	var sb strings.Builder
+	for _, d := range wrapDefs() {
+		sb.WriteString(d)
+		sb.WriteByte('\n')
+	}
+	for _, f := range s.frames {
+		for _, l := range f {
+			sb.WriteString(l)
+			sb.WriteByte('\n')
+		}
+	}
+	return sb.String()
+}
+
+// secondOpinion decides `script + (check-sat)` with another solver, one-shot.
+func secondOpinion(kind, script string, timeoutS int) string {
+	var cmd *exec.Cmd
+	switch kind {
+	case "cvc5":
+		cmd = exec.Command("cvc5", "--lang=smt2", fmt.Sprintf("--tlimit=%d", timeoutS*1000))
+		script = "(set-logic ALL)\n" + script
+	default:
+		cmd = exec.Command("z3-new", "-in", "-smt2", fmt.Sprintf("-T:%d", timeoutS))
+	}
+	cmd.Stdin = strings.NewReader(script + "(check-sat)\n")
+	out, _ := cmd.Output()
+	for _, l := range strings.Split(string(out), "\n") {
+		l = strings.TrimSpace(l)
+		if l == "sat" || l == "unsat" {
+			return l
+		}
+	}
+	return "unknown"
 }
 
 func (s *solver) readLine() string {
